@@ -51,11 +51,17 @@ pub trait FloatT: Float + Debug + 'static {
     fn to64(self) -> f64;
     fn from_ratio(num: i64, den: i64) -> Self;
 }
+/// the input symbol that stands for the IEEE value -0.0 (the specification reads it as the number 0)
+const NEG_ZERO: i64 = 2147483647;
+
 impl FloatT for f64 {
     fn to64(self) -> f64 {
         self
     }
     fn from_ratio(num: i64, den: i64) -> f64 {
+        if num == NEG_ZERO {
+            return -0.0;
+        }
         num as f64 / den as f64
     }
 }
@@ -64,6 +70,9 @@ impl FloatT for f32 {
         self as f64
     }
     fn from_ratio(num: i64, den: i64) -> f32 {
+        if num == NEG_ZERO {
+            return -0.0;
+        }
         num as f32 / den as f32
     }
 }
@@ -767,6 +776,8 @@ fn mem_exp<T: FloatT>(exp: &Value) -> Value {
     let marks: Vec<u64> = exp["marks"].as_array().unwrap().iter().map(|x| x.as_u64().unwrap()).collect();
     let period: Vec<i64> = exp["period"].as_array().unwrap().iter().map(|x| x.as_i64().unwrap()).collect();
     let ramp: i64 = exp.get("ramp").and_then(|r| r.as_i64()).unwrap_or(0);
+    let poll: u64 = exp.get("poll").and_then(|r| r.as_u64()).unwrap_or(0);
+    let clone_every: u64 = exp.get("clone_every").and_then(|r| r.as_u64()).unwrap_or(0);
     // everything the harness itself allocates during the measurement is allocated up front
     let mut raw: Vec<(u64, isize)> = Vec::with_capacity(marks.len() + 1);
     let mut o = exp.clone();
@@ -787,6 +798,20 @@ fn mem_exp<T: FloatT>(exp: &Value) -> Value {
                 let x = T::from_ratio(period[((step - 1) as usize) % period.len()] + ramp * cycle as i64, unit);
                 if catch_unwind(AssertUnwindSafe(|| v.update(x))).is_err() {
                     dead = true;
+                    break;
+                }
+                // optional: poll the answer `poll` times after every update; replace the view by its clone every `clone_every` steps
+                for _ in 0..poll {
+                    if catch_unwind(AssertUnwindSafe(|| v.last())).is_err() {
+                        dead = true;
+                    }
+                }
+                if clone_every > 0 && step % clone_every == 0 {
+                    if let Ok(Some(b)) = catch_unwind(AssertUnwindSafe(|| v.0.bclone())) {
+                        v = Dyn(b);
+                    }
+                }
+                if dead {
                     break;
                 }
                 if step == marks[mi] {
